@@ -164,6 +164,10 @@ func factsC09() {
 	emitStr("f_sig_extractValue_text", normText(rel, "", "extractValue"))
 	emitStr("f_sig_nodifyStrucType_text", normText(rel, "", "nodifyStrucType"))
 	emitStr("f_sig_extractMembers_text", normText(rel, "", "extractMembers"))
+	// the callback of the repaired grammar ("(" list ")" with an optional struct definition);
+	// "<missing ...>" on the pinned grammar
+	emitStr("f_sig_nodifyTupleOrStruct_text", normText(rel, "", "nodifyTupleOrStruct"))
+	emitStr("f_sig_nodifyTupleType_text", normText(rel, "", "nodifyTupleType"))
 
 	// the printers' format strings
 	const trel = "meta/signature/type.go"
